@@ -66,16 +66,20 @@ package validator
 //@   ensures panics <==> !arrOK(av, v.itemsCounter)
 //@   ensures panics ==> errWF(pv)
 
-// ASSUMED: the expansion of a position into its candidate validators has no
-// effect the caller can see and fails only with library errors (the C01/C03
-// content of the expansion is stated on buildList/appendNodeValidators)
+// the expansion of a position into its candidate validators: a fresh constructor,
+// one buildList, the list it built (nvl NAMES the result; what the list contains is
+// buildList's verified postcondition, restated here)
 //@ func NodeValidatorList(node, rootSchema, parent)
 //@   props C01 C03 C07
 //@   requires node != nil
-//@   trusted "validator list expansion: only its frame and error class are assumed here"
+//@   assumes isNode(node) && consReady(node) && rulesTyped(node) && reqKeysReady(node) && allocated(consOf(node)) && allocated(consOf(node).data)
 //@   maypanic
+//@   ensures panics ==> (typeis(pv, errors.DocumentError) || errWF(pv))
 //@   defines normal ==> result == nvl(node, parent)
-//@   defines panics ==> (typeis(pv, errors.DocumentError) || errWF(pv))
+//@   ensures normal ==> fresh(result)
+//@   ensures normal && !hasRule(node, constraint.TypesListConstraintType) ==> len(result) == 1 && vFor(result[0], node, parent)
+//@   ensures normal && hasRule(node, constraint.TypesListConstraintType) && hasRule(node, constraint.NullableConstraintType)
+//@           ==> typeis(result[len(result) - 1], *literalValidator) && unbox(result[len(result) - 1], *literalValidator).node_ == node && unbox(result[len(result) - 1], *literalValidator).parent_ == parent
 
 //@ func (*arrayValidator).feed(jsonLexeme)
 //@   props C01 C02
@@ -201,6 +205,7 @@ package validator
 //@   props C01
 //@   requires c != nil && isNode(node) && consReady(node) && reqKeysReady(node) && allocated(consOf(node)) && allocated(consOf(node).data)
 //@   maypanic
+//@   ensures panics ==> (typeis(pv, errors.DocumentError) || errWF(pv))
 //@   modifies c.list, c.list[*]
 //@   ensures normal ==> len(c.list) == old(len(c.list)) + 1 && vFor(c.list[old(len(c.list))], node, c.parent)
 //@   ensures normal ==> (forall j :: 0 <= j && j < old(len(c.list)) ==> c.list[j] == old(c.list[j]))
@@ -220,6 +225,7 @@ package validator
 //@   requires c != nil && ((c.addedTypeNames == nil) == (c.list.$arr == 0))
 //@   assumes isNode(node) && consReady(node) && rulesTyped(node) && reqKeysReady(node) && allocated(consOf(node)) && allocated(consOf(node).data)
 //@   maypanic
+//@   ensures panics ==> (typeis(pv, errors.DocumentError) || errWF(pv))
 //@   modifies c.list, c.list[*], c.addedTypeNames, c.addedTypeNames[*]
 //@   ensures normal ==> len(c.list) >= old(len(c.list)) && c.list.$arr != 0 && (forall j :: 0 <= j && j < old(len(c.list)) ==> c.list[j] == old(c.list[j]))
 //@   ensures normal && !hasRule(node, constraint.TypesListConstraintType) ==> len(c.list) == old(len(c.list)) + 1 && vFor(c.list[old(len(c.list))], node, c.parent)
@@ -234,6 +240,7 @@ package validator
 //@   requires c != nil && ((c.addedTypeNames == nil) == (c.list.$arr == 0))
 //@   assumes forall k string :: dom(c.rootSchema.types, k) ==> c.rootSchema.types[k].schema != nil
 //@   maypanic
+//@   ensures panics ==> (typeis(pv, errors.DocumentError) || errWF(pv))
 //@   modifies c.list, c.list[*], c.addedTypeNames, c.addedTypeNames[*]
 //@   ensures normal ==> len(c.list) >= old(len(c.list)) && c.list.$arr != 0 && c.addedTypeNames != nil && (forall j :: 0 <= j && j < old(len(c.list)) ==> c.list[j] == old(c.list[j]))
 //@   ensures normal && old(c.addedTypeNames) != nil ==> c.addedTypeNames == old(c.addedTypeNames)
